@@ -113,18 +113,25 @@ type fact struct {
 	// `z0.f` then means the receiver's field, or a scratch field (listed in scratch) that starts at its zero value
 	alias, aliasOf string
 	scratch        []string
-	mops           []*fmop
-	lean           string
-	fn             string // key in pkgInfo.funcs
-	doc            string
-	params         []*fparam
-	stateful       bool
-	stop           bool // stateful: return the state at the first opaque call (ignore what follows it)
-	effects        []*feffect
-	skip           []string // statements dropped (mantissa traffic); each must occur
-	skipSeen       map[string]bool
-	locate         func(ft *ftr, fd *ast.FuncDecl) ([]ast.Stmt, ast.Expr, error)
-	resultVar      string // fragment facts: the local returned when the fragment falls through
+	// errResult: the Go method returns `error`; `return nil` is outcome 0, `return <call>` outcome 3
+	errResult bool
+	// rangeConds: the range loops of the function, in order: each must have the shape `for … { if c { return … } }`
+	// and is translated as `if <parameter> { return … }` (the parameter says whether some element satisfies c)
+	rangeConds []string
+	rangeText  []string
+	rangeSeen  int
+	mops       []*fmop
+	lean       string
+	fn         string // key in pkgInfo.funcs
+	doc        string
+	params     []*fparam
+	stateful   bool
+	stop       bool // stateful: return the state at the first opaque call (ignore what follows it)
+	effects    []*feffect
+	skip       []string // statements dropped (mantissa traffic); each must occur
+	skipSeen   map[string]bool
+	locate     func(ft *ftr, fd *ast.FuncDecl) ([]ast.Stmt, ast.Expr, error)
+	resultVar  string // fragment facts: the local returned when the fragment falls through
 }
 
 type ftr struct {
@@ -440,7 +447,13 @@ func (t *ftr) ex(e ast.Expr, c fctx) string {
 			op := map[token.Token]string{token.EQL: "=", token.NEQ: "≠", token.LSS: "<", token.LEQ: "≤", token.GTR: ">", token.GEQ: "≥"}[x.Op]
 			return fmt.Sprintf("(decide (%s %s %s))", a, op, b)
 		}
-		a, b := t.ex(x.X, c), t.ex(x.Y, c)
+		var a, b string
+		if tvy := t.p.info.Types[unparen(x.Y)]; (x.Op == token.SHL || x.Op == token.SHR) && tvy.Value != nil {
+			// shift by a constant: the count is an untyped constant
+			a, b = t.ex(x.X, c), constant.ToInt(tvy.Value).ExactString()
+		} else {
+			a, b = t.ex(x.X, c), t.ex(x.Y, c)
+		}
 		if ty.k == kInt {
 			switch x.Op {
 			case token.ADD:
@@ -476,6 +489,10 @@ func (t *ftr) ex(e ast.Expr, c fctx) string {
 				return fmt.Sprintf("(%s ||| %s)", a, b)
 			case token.XOR:
 				return fmt.Sprintf("(%s ^^^ %s)", a, b)
+			case token.SHR:
+				return fmt.Sprintf("(%s >>> %s)", a, b)
+			case token.SHL:
+				return fmt.Sprintf("((%s <<< %s) %% %s)", a, b, m)
 			}
 			return t.fail(e, "unsigned operator %s", x.Op)
 		}
@@ -845,6 +862,22 @@ func (t *ftr) stmts(list []ast.Stmt, c fctx, k func(c fctx) string) string {
 				return out + next(c)
 			}
 		}
+		if len(x.Lhs) == 1 && len(x.Rhs) == 1 && x.Tok == token.ASSIGN && t.f.stateful {
+			// `*z = Decimal{}`: every scalar field of the receiver gets its zero value
+			if st, ok := x.Lhs[0].(*ast.StarExpr); ok {
+				id, isId := st.X.(*ast.Ident)
+				cl, isCl := x.Rhs[0].(*ast.CompositeLit)
+				if isId && isCl && t.isReceiver(id) && len(cl.Elts) == 0 {
+					out := fmt.Sprintf("%s-- *%s = Decimal{}\n", c.indent, id.Name)
+					for _, prm := range t.f.params {
+						if prm.state && prm.typed {
+							out += fmt.Sprintf("%slet %s : %s := %s\n", c.indent, prm.name, prm.typ.lean(), prm.typ.zero())
+						}
+					}
+					return out + next(c)
+				}
+			}
+		}
 		if len(x.Lhs) == 2 && len(x.Rhs) == 2 && (x.Tok == token.DEFINE || x.Tok == token.ASSIGN) {
 			// parallel assignment of scalars: both right-hand sides are evaluated first
 			r0, r1 := t.ex(x.Rhs[0], c), t.ex(x.Rhs[1], c)
@@ -887,6 +920,41 @@ func (t *ftr) stmts(list []ast.Stmt, c fctx, k func(c fctx) string) string {
 			return out + next(c2)
 		}
 		return c.indent + t.fail(x, "assignment operator %s", x.Tok) + "\n"
+	case *ast.RangeStmt:
+		if t.f.rangeSeen >= len(t.f.rangeConds) {
+			return c.indent + t.fail(x, "range loop without a declared condition parameter") + "\n"
+		}
+		prm := t.param(t.f.rangeConds[t.f.rangeSeen])
+		t.f.rangeSeen++
+		var inner *ast.IfStmt
+		if len(x.Body.List) == 1 {
+			inner, _ = x.Body.List[0].(*ast.IfStmt)
+		}
+		if prm == nil || inner == nil || inner.Else != nil || inner.Init != nil || len(inner.Body.List) == 0 {
+			return c.indent + t.fail(x, "range loop of unsupported shape") + "\n"
+		}
+		if _, ok := inner.Body.List[len(inner.Body.List)-1].(*ast.ReturnStmt); !ok {
+			return c.indent + t.fail(x, "range loop whose body does not end in return") + "\n"
+		}
+		// the loop is abstracted into one boolean, so its text is pinned: "<key>, <value> := range <X> | <cond>"
+		if want := t.f.rangeText[t.f.rangeSeen-1]; true {
+			k, v := "_", "_"
+			if x.Key != nil {
+				k = types.ExprString(x.Key)
+			}
+			if x.Value != nil {
+				v = types.ExprString(x.Value)
+			}
+			got := fmt.Sprintf("%s, %s := range %s | %s", k, v, types.ExprString(x.X), types.ExprString(inner.Cond))
+			if got != want {
+				return c.indent + t.fail(x, "range loop reads %q, expected %q", got, want) + "\n"
+			}
+		}
+		prm.used, prm.typ, prm.typed = true, ftype{k: kBool}, true
+		outer := c.locals
+		back := func(ci fctx) string { ci.locals = restrict(ci.locals, outer); return next(ci) }
+		return fmt.Sprintf("%s-- range loop: %s\n%sif %s then\n%s%selse\n%s", c.indent, prm.src, c.indent, prm.name,
+			t.stmts(inner.Body.List, c.in(), back), c.indent, back(c.in()))
 	case *ast.IncDecStmt:
 		out, c2 := t.assign(x.X, func(ty ftype) string {
 			a := t.ex(x.X, c)
@@ -1032,6 +1100,15 @@ func (t *ftr) stmts(list []ast.Stmt, c fctx, k func(c fctx) string) string {
 				}
 				if id, ok := r.(*ast.Ident); ok && t.isReceiver(id) {
 					return t.ret(nil, 0, c)
+				}
+				if t.f.errResult {
+					// a method returning `error`: nil = outcome 0, anything else (fmt.Errorf(…)) = outcome 3
+					if id, ok := r.(*ast.Ident); ok && id.Name == "nil" {
+						return t.ret(nil, 0, c)
+					}
+					if _, ok := r.(*ast.CallExpr); ok {
+						return t.ret(nil, 3, c)
+					}
 				}
 			}
 			return c.indent + t.fail(x, "return value of a stateful method must be the receiver or a declared opaque call") + "\n"
@@ -1530,6 +1607,14 @@ func baseFacts() []*fact {
 				{src: "z.Mul(x, y)", code: 1},
 				{src: "z0.umul(x, y)", code: 3, havoc: [][2]string{{"z0.form", "<form after umul>"}, {"z0.acc", "<acc after umul>"}}},
 				{src: "z.Add(z0, u)", code: 2}}},
+		{lean: "GobDecode", fn: "Decimal.GobDecode", stateful: true, errResult: true, rangeConds: []string{"<some word >= _DB>"}, rangeText: []string{"_, w := range mant | w >= _DB"},
+			doc: "outcome 3 = an error is returned; hdr = buf[1], precU = the precision field, expU = the exponent field, topWord = mant[len(mant)-1], anyBig = some decoded word >= _DB, tz = mant.trailingZeroDigits()",
+			params: append(ps("lenBuf", "len(buf)", "ver", "buf[0]", "hdr", "buf[1]", "precU", "binary.BigEndian.Uint32(buf[2:])",
+				"expU", "binary.BigEndian.Uint32(buf[6:])", "lenMant", "len(mant)", "topWord", "mant[len(mant) - 1]",
+				"anyBig", "<some word >= _DB>", "tz", "mant.trailingZeroDigits()"),
+				st("zPrec", "z.prec", "zMode", "z.mode", "zAcc", "z.acc", "zForm", "z.form", "zNeg", "z.neg", "zExp", "z.exp")...),
+			skip:    []string{"var mant dec", "mant = mant.setBytes(buf[10:])", "z.mant = z.mant.set(mant)"},
+			effects: []*feffect{{src: "z.SetPrec", code: 1, capAll: true}}},
 		{lean: "Sqrt", fn: "Decimal.Sqrt", stateful: true,
 			doc: "b = value of x.MantExp(z); m* = the receiver fields MantExp leaves (it copies x); the exponent adjusted by the parity of b is in zExp, arg = b/2",
 			params: append(ps("xForm", "x.form", "xNeg", "x.neg", "xPrec", "x.prec", "bv", "<MantExp result>",
